@@ -47,6 +47,8 @@ def formats_of(m, wd):
 
 
 LABELS = ["p", "q", "res_1", "d", "Formula0", "x1"]
+# result archives accept any label: dots, dashes, blanks
+ARCHIVE_LABELS = LABELS + ["attractors.v2", "a.b.c", "formula-3", "res 1", ".hidden", "x.bdd"]
 
 
 def label_specs(rng, labels, inside=None):
@@ -70,15 +72,18 @@ def run_c16(tier, seed, replay):
             fm = formats_of(m, wd)
             for j in range(per_net):
                 fmt = rng.choice(sorted(fm))
-                labels = rng.sample(LABELS, rng.randint(0, 4))
+                labels = rng.sample(ARCHIVE_LABELS, rng.randint(0, 4))
                 sets = label_specs(rng, labels)
                 if labels and rng.random() < 0.5:
                     sets[labels[0]] = {"t": "formula", "f": gen.render(gen.FormulaGen(rng, m["vars"], quant=[]).gen(5))}
                 k = rng.choice([0, 1, 2])
-                fg = gen.FormulaGen(rng, m["vars"], wild=labels or ["nolabel"], p_quant=0.0 if k == 0 else 0.2, max_nest=max(k, 1), quant=[] if k == 0 else gen.QUANT)
-                formulae = [gen.render(fg.gen(rng.randint(1, 6))) for _ in range(rng.randint(0, 4))]
-                if labels:
-                    a, b = rng.choice(labels), rng.choice(labels)
+                formulae_gen = gen.FormulaGen(rng, m["vars"], wild=[l for l in labels if l in LABELS] or ["nolabel"], p_quant=0.0 if k == 0 else 0.2,
+                                              max_nest=max(k, 1), quant=[] if k == 0 else gen.QUANT)
+                formulae = [gen.render(formulae_gen.gen(rng.randint(1, 6))) for _ in range(rng.randint(0, 4))]
+                wl = [l for l in labels if l in LABELS]       # labels that can be written as wild-cards
+                fg = gen.FormulaGen(rng, m["vars"], wild=wl or ["nolabel"], p_quant=0.0 if k == 0 else 0.2, max_nest=max(k, 1), quant=[] if k == 0 else gen.QUANT)
+                if wl:
+                    a, b = rng.choice(wl), rng.choice(wl)
                     probe = "(%%%s%% & (EF (~%%%s%%))) | (AX %%%s%%)" % (a, b, a)
                 else:
                     probe = "EF " + m["vars"][0]
@@ -312,6 +317,13 @@ def conv_networks(rng, count):
     for i in range(count):
         names = rng.choice(name_pools)[:rng.choice([2, 3, 3])]
         out.append(gen.rand_network(rng, len(names), max_pbits=12, names=names, p_implicit=0.5, p_param=0.6))
+    # names that collide with synthetic constants of an uninterpreted function, which is applied several times
+    for i in range(max(4, count // 6)):
+        clash = rng.choice(["f_1", "f_0", "f_", "f_10", "g_1", "t_1"])
+        fn = rng.choice(["f(a) & !f(b)", "f(a) | f(%s)" % clash, "f(a, b) ^ f(b, a)", "(f(a) => g(b)) & (g(a) | f(b))", "f(a) & f(a) & !f(b)"])
+        regs = "a -?? t\nb -?? t\n" + ("%s -?? t\n" % clash if clash in fn else "t -?? %s\n" % clash)
+        extra = rng.choice(["", "a -> b\n", "$a: g(b)\nb -?? a\n", "b -?? a\n"])
+        out.append(regs + "$t: " + fn + "\n" + extra)
     out += ["b_1 -> b\nb_0 -> b_1\nb -> b_0\n", "a -> b\n$b: f(a)\n$a: k\n", "a -?? a\n$a: f(a, a) | !g(a)\nb -> a\n",
             "a -> c\nb -| c\nc -? a\n$b: true\n", "a -> b\n$b: f(a) & f(!a)\n$a: a\na -?? a\n"]
     return out
@@ -344,7 +356,7 @@ def run_c19(tier, seed, replay):
             continue
         n_in = c["net_in"]
         bits = sum(2 ** p_["arity"] for p_ in n_in["params"]) + sum(2 ** len(f["regs"]) for f in n_in["fns"] if f["op"] == "implicit")
-        if bits > 12 or len(n_in["vars"]) > 3 or any(p_["arity"] > 3 for p_ in n_in["params"]):
+        if bits > 12 or len(n_in["vars"]) > 4 or any(p_["arity"] > 3 for p_ in n_in["params"]):
             continue
         pr = subprocess.run([binp], input=c["model"], capture_output=True, text=True, timeout=120)
         ev = {"id": c["id"], "kinds": ["c19"], "model": c["model"], "net_in": n_in, "exit": pr.returncode,
